@@ -261,14 +261,21 @@ func Record(sig string, c any, msg string) {
 // knows the culprit.
 func Begin(c any) {
 	p := os.Getenv("VERIF_CASEFILE")
-	if p == "" {
+	logCases := os.Getenv("VERIF_LOG_CASES") != ""
+	if p == "" && !logCases {
 		return
 	}
 	raw, err := json.Marshal(c)
 	if err != nil {
 		return
 	}
-	os.WriteFile(p, raw, 0o644)
+	if p != "" {
+		os.WriteFile(p, raw, 0o644)
+	}
+	if logCases {
+		// race reports go straight to fd 2; this line lets the driver attribute a report to its case
+		os.Stderr.Write(append(append([]byte("\nVERIF-CASE "), raw...), '\n'))
+	}
 }
 
 // End clears the current-case marker.
